@@ -132,7 +132,19 @@ func (ch c09) Run(c *core.Ctx) {
 			cols = append(cols, wire.Column{Name: fmt.Sprintf("c%d", j), Oid: oid.Oid(o), Width: -1})
 		}
 		st := &hs.Stmt{ID: fmt.Sprintf("t%d", i), Cols: cols}
-		for _, r := range t.Rows {
+		for ri, r := range t.Rows {
+			if (i+ri)%4 == 0 {
+				// a row that fails half-way (unencodable value in a random column) or has the wrong
+				// arity is rejected; the rows written after it must arrive intact
+				bad := append([]any{}, r...)
+				if len(bad) > 0 && ri%2 == 0 {
+					bad[(i+ri)%len(bad)] = make(chan int) // no codec (not even json) can encode a channel
+				} else {
+					bad = append(bad, "surplus")
+				}
+				st.Ops = append(st.Ops, hs.Op{K: "badrow", Vals: bad})
+				c.Count("rejected_rows_interleaved", 1)
+			}
 			st.Ops = append(st.Ops, hs.Op{K: "row", Vals: r})
 		}
 		st.Ops = append(st.Ops, hs.Op{K: "complete", Tag: fmt.Sprintf("SELECT %d", len(t.Rows))})
@@ -188,6 +200,12 @@ func (ch c09) judge(c *core.Ctx, t c09table, out []byte, closed bool, evs []trEv
 	for _, e := range evs {
 		if e.Kind == "cb" && e.Name == "op" {
 			r := e.Data.(hs.OpRes)
+			if r.K == "badrow" {
+				if r.ErrNil {
+					return viol("bad-row-accepted", "an unencodable / wrong-arity row was accepted", fmt.Sprintf("op %d", r.Idx))
+				}
+				continue
+			}
 			if !r.ErrNil {
 				return viol("row-rejected", fmt.Sprintf("row rejected by the writer: %s", normErr(r.Err)), fmt.Sprintf("op %d: %s", r.Idx, r.Err))
 			}
